@@ -8,6 +8,16 @@
  * live in small handle tables.  Linked with allocwrap.c: only the library calls are bracketed
  * by verif_alloc_track(1/0), so only allocations requested by libvna code are counted/failed.
  *
+ * NULL pointers: a NULL is passed to the library only for arguments the manual pages
+ * (the .3 files in /repo/src) document as optional: the error callbacks, the port_map of
+ * vnacal_new_add_mapped_matrix*, frequency_vector / sigma_tr_vector / both sigma vectors of
+ * vnacal_new_set_m_error, sigma_frequency_vector of vnacal_make_correlated_parameter.  The
+ * "isnull" / NULL-variant / "-" arguments of all other ops (dsetfv, dsetz0v, dsetfz0v,
+ * cvector 1|2, ccorr 2, nsetfv 1, nmerr 3, capply fvariant, the mnull flag of nsr/ndr/nthru/
+ * nline/nmm, the snull flag of nline) are still read, so that scripts keep their syntax, but
+ * the required pointer is passed non-NULL; ops whose required string / object would be NULL
+ * (dsetfmt -, pquote -, caddcal of an empty slot, capply without an output object) are skipped.
+ *
  * After every op one line:
  *   <idx> <op> ret=<r> errno=<class> cb=<n> da=<tracked requests> live=<tracked live blocks> [val=<digest>]
  * With <k> <opindex>: before op <opindex> the k-th tracked request is made to fail.  After
@@ -287,7 +297,7 @@ static void do_op(const char *op)
 	    LIB(s = vnaproperty_get_subtree(P[q], "%s", e));
 	    LIB(rc = vnaproperty_copy(&P[p], s)); r_int(rc, rc == -1);
 	}
-	else if (!strcmp(op, "pquote")) { char *k = gets_(); char *q; LIB(q = vnaproperty_quote_key(k)); r_ptr(q); v_str(q); free(q); if (k == NULL) op_failed = false; }
+	else if (!strcmp(op, "pquote")) { char *k = gets_(); char *q; if (!k) { r_skip(); return; } LIB(q = vnaproperty_quote_key(k)); r_ptr(q); v_str(q); free(q); }
 	else if (!strcmp(op, "pexport")) {
 	    int t = geti(); int usecb = geti(); int rc; if (!slot_ok(t, NT)) { r_skip(); return; }
 	    free_text(t);
@@ -343,9 +353,10 @@ static void do_op(const char *op)
 	else if (!strcmp(op, "dgetf")) { int i = geti(); double f; LIB(f = vnadata_get_frequency(v, i)); r_dbl(f); }
 	else if (!strcmp(op, "dfminmax")) { double a, b; LIB(a = vnadata_get_fmin(v)); LIB(b = vnadata_get_fmax(v)); r_dbl(a); snprintf(vbuf, sizeof vbuf, "%.9g", b); }
 	else if (!strcmp(op, "dsetfv")) {
-	    int isnull = geti(); int rc; double *fv = calloc((size_t)nf + 1, sizeof(double));
+	    int isnull = geti(); int rc; double *fv = calloc((size_t)nf + 1, sizeof(double));	/* isnull: read, unused (required vector) */
+	    (void)isnull;
 	    for (int i = 0; i < nf; ++i) fv[i] = fgen(i);
-	    LIB(rc = vnadata_set_frequency_vector(v, isnull ? NULL : fv)); free(fv); r_int(rc, rc == -1);
+	    LIB(rc = vnadata_set_frequency_vector(v, fv)); free(fv); r_int(rc, rc == -1);
 	}
 	else if (!strcmp(op, "dgetfv")) { const double *fv; LIB(fv = vnadata_get_frequency_vector(v)); uint64_t h = 1; if (fv) for (int i = 0; i < nf; ++i) h = fnv_d(h, fv[i]); r_int(0, false); snprintf(vbuf, sizeof vbuf, "%016llx", (unsigned long long)h); }
 	else if (!strcmp(op, "dgetc")) { int f = geti(), r = geti(), c = geti(); double complex x; LIB(x = vnadata_get_cell(v, f, r, c)); r_cpx(x); }
@@ -379,9 +390,10 @@ static void do_op(const char *op)
 	    if (ports == 0) op_failed = false;
 	}
 	else if (!strcmp(op, "dsetz0v")) {
-	    int isnull = geti(); double base = getd(); int rc; double complex *z = calloc((size_t)ports + 1, sizeof(double complex));
+	    int isnull = geti(); double base = getd(); int rc; double complex *z = calloc((size_t)ports + 1, sizeof(double complex));	/* isnull: read, unused (required vector) */
+	    (void)isnull;
 	    for (int i = 0; i < ports; ++i) z[i] = base + i + I * i;
-	    LIB(rc = vnadata_set_z0_vector(v, isnull ? NULL : z)); free(z); r_int(rc, rc == -1);
+	    LIB(rc = vnadata_set_z0_vector(v, z)); free(z); r_int(rc, rc == -1);
 	}
 	else if (!strcmp(op, "dhasfz0")) { bool b; LIB(b = vnadata_has_fz0(v)); r_int(b ? 1 : 0, false); }
 	else if (!strcmp(op, "dgetfz0")) { int f = geti(), p = geti(); double complex x; LIB(x = vnadata_get_fz0(v, f, p)); r_cpx(x); }
@@ -391,16 +403,17 @@ static void do_op(const char *op)
 	    if (z) { uint64_t h = 1; for (int i = 0; i < ports; ++i) { h = fnv_d(h, creal(z[i])); h = fnv_d(h, cimag(z[i])); } snprintf(vbuf, sizeof vbuf, "%016llx", (unsigned long long)h); }
 	}
 	else if (!strcmp(op, "dsetfz0v")) {
-	    int f = geti(); int isnull = geti(); double base = getd(); int rc; double complex *z = calloc((size_t)ports + 1, sizeof(double complex));
+	    int f = geti(); int isnull = geti(); double base = getd(); int rc; double complex *z = calloc((size_t)ports + 1, sizeof(double complex));	/* isnull: read, unused (required vector) */
+	    (void)isnull;
 	    for (int i = 0; i < ports; ++i) z[i] = base + i + I * (i + 1);
-	    LIB(rc = vnadata_set_fz0_vector(v, f, isnull ? NULL : z)); free(z); r_int(rc, rc == -1);
+	    LIB(rc = vnadata_set_fz0_vector(v, f, z)); free(z); r_int(rc, rc == -1);
 	}
 	else if (!strcmp(op, "dconv")) {
 	    int o = geti(); int t = geti(); int rc;
 	    if (!slot_ok(o, ND) || D[o] == NULL) { r_skip(); return; }
 	    LIB(rc = vnadata_convert(v, D[o], (vnadata_parameter_type_t)t)); r_int(rc, rc == -1);
 	}
-	else if (!strcmp(op, "dsetfmt")) { char *s = gets_(); int rc; LIB(rc = vnadata_set_format(v, s)); r_int(rc, rc == -1); }
+	else if (!strcmp(op, "dsetfmt")) { char *s = gets_(); int rc; if (!s) { r_skip(); return; } LIB(rc = vnadata_set_format(v, s)); r_int(rc, rc == -1); }
 	else if (!strcmp(op, "dgetfmt")) { const char *s; LIB(s = vnadata_get_format(v)); r_ptr(s); v_str(s); op_failed = false; }
 	else if (!strcmp(op, "dsetft")) { int t = geti(); int rc; LIB(rc = vnadata_set_filetype(v, (vnadata_filetype_t)t)); r_int(rc, rc == -1); }
 	else if (!strcmp(op, "dgetft")) { int t; LIB(t = (int)vnadata_get_filetype(v)); r_int(t, t == -1); }
@@ -455,21 +468,25 @@ static void do_op(const char *op)
 	if (!strcmp(op, "cfree")) { LIB(vnacal_free(v)); C[c] = NULL; kill_news_of(c); r_int(0, false); }
 	else if (!strcmp(op, "cscalar")) { double re = getd(), im = getd(); int rc; LIB(rc = vnacal_make_scalar_parameter(v, re + I * im)); r_int(rc, rc == -1); }
 	else if (!strcmp(op, "cvector")) {
-	    int n = geti(); int variant = geti(); int rc;	/* 0 valid, 1 NULL f, 2 NULL gamma, 3 descending, 4 negative f0 */
+	    int n = geti(); int variant = geti(); int rc;	/* 0 valid, 3 descending, 4 negative f0; 1, 2 (formerly NULL f / NULL gamma, both required) = 0 */
 	    int na = n > 0 ? n : 0;
 	    double *fv = calloc((size_t)na + 1, sizeof(double)); double complex *gv = calloc((size_t)na + 1, sizeof(double complex));
 	    for (int i = 0; i < na; ++i) { fv[i] = (variant == 3) ? fgen(na - i) : fgen(i) * 0.5 + (i == na - 1 ? 1e12 : 0); gv[i] = 0.1 * i - 0.2 * I; }
 	    if (variant == 4) fv[0] = -1.0;
-	    LIB(rc = vnacal_make_vector_parameter(v, variant == 1 ? NULL : fv, n, variant == 2 ? NULL : gv));
+	    LIB(rc = vnacal_make_vector_parameter(v, fv, n, gv));
 	    free(fv); free(gv); r_int(rc, rc == -1);
 	}
 	else if (!strcmp(op, "cunknown")) { int o = geti(); int rc; LIB(rc = vnacal_make_unknown_parameter(v, o)); r_int(rc, rc == -1); }
 	else if (!strcmp(op, "ccorr")) {
-	    int o = geti(); int n = geti(); int variant = geti(); int rc;	/* 0 valid, 1 NULL f (allowed when n==1?), 2 NULL sigma, 3 descending */
+	    /* ccorr c other n variant: 0 valid own sigma frequencies, 1 sigma_frequency_vector NULL (valid when n == 1, and when the
+	     * chain of `other` references ends in a vector parameter (cvector) of exactly n frequencies: the frequencies are then
+	     * borrowed from that vector, e.g. "cvector 0 4 0", "cunknown 0 3", "ccorr 0 4 4 1"), 3 descending; 2 (formerly NULL sigma_vector,
+	     * a required argument) = 0 */
+	    int o = geti(); int n = geti(); int variant = geti(); int rc;
 	    int na = n > 0 ? n : 0;
 	    double *fv = calloc((size_t)na + 1, sizeof(double)); double *sv = calloc((size_t)na + 1, sizeof(double));
 	    for (int i = 0; i < na; ++i) { fv[i] = (variant == 3) ? fgen(na - i) : fgen(i) * 0.5 + (i == na - 1 ? 1e12 : 0); sv[i] = 0.01 * (i + 1); }
-	    LIB(rc = vnacal_make_correlated_parameter(v, o, variant == 1 ? NULL : fv, n, variant == 2 ? NULL : sv));
+	    LIB(rc = vnacal_make_correlated_parameter(v, o, variant == 1 ? NULL : fv, n, sv));
 	    free(fv); free(sv); r_int(rc, rc == -1);
 	}
 	else if (!strcmp(op, "cpval")) { int p = geti(); double f = getd(); double complex x; LIB(x = vnacal_get_parameter_value(v, p, f)); r_cpx(x); }
@@ -477,6 +494,7 @@ static void do_op(const char *op)
 	else if (!strcmp(op, "caddcal")) {
 	    char *name = gets_(); int n = geti(); int rc; if (!name) { r_skip(); return; }
 	    vnacal_new_t *vnp = (slot_ok(n, NN)) ? N[n].p : NULL;
+	    if (vnp == NULL) { r_skip(); return; }
 	    LIB(rc = vnacal_add_calibration(v, name, vnp)); r_int(rc, rc == -1);
 	}
 	else if (!strcmp(op, "cdelcal")) { int ci = geti(); int rc; LIB(rc = vnacal_delete_calibration(v, ci)); r_int(rc, rc == -1); }
@@ -509,19 +527,22 @@ static void do_op(const char *op)
 	else if (!strcmp(op, "cpsetsub")) { int ci = geti(); char *e = gets_(); vnaproperty_t **s; if (!e) { r_skip(); return; } LIB(s = vnacal_property_set_subtree(v, ci, "%s", e)); r_ptr(s); }
 	else if (!strcmp(op, "csave")) { int id = geti(); int rc; LIB(rc = vnacal_save(v, path_of(id))); r_int(rc, rc == -1); }
 	else if (!strcmp(op, "capply")) {
-	    /* capply c ci d nf rows cols mode fvariant   mode 0: apply_m, 1: apply with a = identity; d = -1: NULL s_parameters */
+	    /* capply c ci d nf rows cols mode fvariant   mode 0: apply_m, 1: apply with a = identity; no vnadata object in slot d: skipped;
+	     * fvariant: read, unused (formerly 1 = NULL frequency_vector, a required argument) */
 	    int ci = geti(), d = geti(), nf = geti(), rows = geti(), cols = geti(), mode = geti(), fvar = geti(); int rc;
 	    vnadata_t *out = slot_ok(d, ND) ? D[d] : NULL;
+	    (void)fvar;
+	    if (out == NULL) { r_skip(); return; }
 	    int na = nf > 0 ? nf : 0;
 	    double *fv = calloc((size_t)na + 1, sizeof(double));
 	    for (int i = 0; i < na; ++i) fv[i] = fgen(i);
 	    mat_t m = mat_alloc(rows, cols, na);
 	    for (int i = 0; i < m.cells; ++i) for (int f = 0; f < na; ++f) m.v[i][f] = 0.1 * (i + 1) + 0.01 * f * I;
 	    mat_t a = mat_identity(cols, cols, na);
-	    if (mode == 0) LIB(rc = vnacal_apply_m(v, ci, fvar == 1 ? NULL : fv, nf, m.v, rows, cols, out));
-	    else LIB(rc = vnacal_apply(v, ci, fvar == 1 ? NULL : fv, nf, a.v, cols, cols, m.v, rows, cols, out));
+	    if (mode == 0) LIB(rc = vnacal_apply_m(v, ci, fv, nf, m.v, rows, cols, out));
+	    else LIB(rc = vnacal_apply(v, ci, fv, nf, a.v, cols, cols, m.v, rows, cols, out));
 	    mat_free(m); mat_free(a); free(fv); r_int(rc, rc == -1);
-	    if (rc == 0 && out) snprintf(vbuf, sizeof vbuf, "%016llx", (unsigned long long)data_digest(out));
+	    if (rc == 0) snprintf(vbuf, sizeof vbuf, "%016llx", (unsigned long long)data_digest(out));
 	}
 	else r_skip();
 	return;
@@ -541,12 +562,12 @@ static void do_op(const char *op)
 	int R = N[n].rows, Cn = N[n].cols, F = N[n].freqs;
 	if (!strcmp(op, "nfree")) { LIB(vnacal_new_free(v)); N[n].p = NULL; r_int(0, false); }
 	else if (!strcmp(op, "nsetfv")) {
-	    int variant = geti(); int rc;	/* 0 ascending, 1 NULL, 2 descending, 3 negative first, 4 NaN */
+	    int variant = geti(); int rc;	/* 0 ascending, 2 descending, 3 negative first, 4 NaN; 1 (formerly NULL, a required vector) = 0 */
 	    double *fv = calloc((size_t)F + 1, sizeof(double));
 	    for (int i = 0; i < F; ++i) fv[i] = variant == 2 ? fgen(F - i) : fgen(i);
 	    if (variant == 3 && F > 0) fv[0] = -1.0;
 	    if (variant == 4 && F > 0) fv[F - 1] = NAN;
-	    LIB(rc = vnacal_new_set_frequency_vector(v, variant == 1 ? NULL : fv)); free(fv); r_int(rc, rc == -1);
+	    LIB(rc = vnacal_new_set_frequency_vector(v, fv)); free(fv); r_int(rc, rc == -1);
 	}
 	else if (!strcmp(op, "nsetz0")) { double re = getd(), im = getd(); int rc; LIB(rc = vnacal_new_set_z0(v, re + I * im)); r_int(rc, rc == -1); }
 	else if (!strcmp(op, "nptol")) { double x = getd(); int rc; LIB(rc = vnacal_new_set_p_tolerance(v, x)); r_int(rc, rc == -1); }
@@ -554,18 +575,21 @@ static void do_op(const char *op)
 	else if (!strcmp(op, "nitlim")) { int x = geti(); int rc; LIB(rc = vnacal_new_set_iteration_limit(v, x)); r_int(rc, rc == -1); }
 	else if (!strcmp(op, "npvlim")) { double x = getd(); int rc; LIB(rc = vnacal_new_set_pvalue_limit(v, x)); r_int(rc, rc == -1); }
 	else if (!strcmp(op, "nmerr")) {
-	    /* nmerr n nf variant: 0 valid with own f vector, 1 f NULL, 2 both sigma NULL (clear), 3 nf NULL only, 4 negative sigma, 5 tr NULL */
+	    /* nmerr n nf variant: 0 valid with own f vector, 1 f NULL, 2 both sigma NULL (clear), 4 negative sigma, 5 tr NULL
+	     * (all documented uses of NULL); 3 (formerly sigma_nf_vector NULL alone, not a documented use) = 0 */
 	    int nf = geti(), variant = geti(); int rc; int na = nf > 0 ? nf : 0;
 	    double *fv = calloc((size_t)na + 1, sizeof(double)), *s1 = calloc((size_t)na + 1, sizeof(double)), *s2 = calloc((size_t)na + 1, sizeof(double));
 	    for (int i = 0; i < na; ++i) { fv[i] = fgen(i) * (i == 0 ? 0.5 : 1.0) * (i == na - 1 ? 4.0 : 1.0); s1[i] = 1e-4; s2[i] = 1e-3; }
 	    if (variant == 4 && na > 0) s1[na - 1] = -1.0;
-	    LIB(rc = vnacal_new_set_m_error(v, variant == 1 ? NULL : fv, nf, (variant == 2 || variant == 3) ? NULL : s1, (variant == 2 || variant == 5) ? NULL : s2));
+	    LIB(rc = vnacal_new_set_m_error(v, variant == 1 ? NULL : fv, nf, variant == 2 ? NULL : s1, (variant == 2 || variant == 5) ? NULL : s2));
 	    free(fv); free(s1); free(s2); r_int(rc, rc == -1);
 	}
 	else if (!strcmp(op, "nsolve")) { int rc; LIB(rc = vnacal_new_solve(v)); r_int(rc, rc == -1); }
 	else if (!strcmp(op, "nsr") || !strcmp(op, "ndr") || !strcmp(op, "nthru") || !strcmp(op, "nline") || !strcmp(op, "nmm")) {
-	    /* common prefix: n mrows mcols ab(0|1|2: m / a,b / a NULL-b?) mnull(0|1) */
+	    /* common prefix: n mrows mcols ab(0: m only | 1: a,b | 3: UE14/E12 style a | 4: wrong a dimensions) mnull (read, unused: the
+	     * measurement matrix is a required argument) */
 	    int mr = geti(), mc = geti(), ab = geti(), mnull = geti(); int rc = -1;
+	    (void)mnull;
 	    mat_t m = mat_alloc(mr, mc, F);
 	    int ar = (ab == 1) ? mc : 0, ac = (ab == 1) ? mc : 0;
 	    int ue14a = 0;
@@ -573,7 +597,7 @@ static void do_op(const char *op)
 	    if (ab == 4) { ar = mc + 1; ac = mc; }			/* wrong a dimensions */
 	    mat_t a = mat_alloc(ar, ac, F);
 	    for (int i = 0; i < a.cells; ++i) for (int f = 0; f < F; ++f) a.v[i][f] = ue14a ? 1.0 : ((ac > 0 && i / ac == i % ac) ? 1.0 : 0.0);
-	    double complex **mp = mnull ? NULL : m.v;
+	    double complex **mp = m.v;
 	    int full = (mr == R && mc == Cn);
 	    if (!strcmp(op, "nsr")) {
 		int s11 = geti(), port = geti(); double re = getd(), im = getd();
@@ -595,19 +619,24 @@ static void do_op(const char *op)
 		else LIB(rc = vnacal_new_add_through(v, a.v, ar, ac, mp, mr, mc, p1, p2));
 	    } else if (!strcmp(op, "nline")) {
 		int s[4]; int snull; for (int i = 0; i < 4; ++i) s[i] = geti();
-		int p1 = geti(), p2 = geti(); snull = geti();
+		int p1 = geti(), p2 = geti(); snull = geti(); (void)snull;	/* snull: read, unused (the s vector is required) */
 		double g[4]; for (int i = 0; i < 4; ++i) g[i] = getd();
 		int lo = p1 < p2 ? 0 : 1;
 		if (full) { mat_set(m, mr, mc, p1 - 1, p1 - 1, F, g[0]); mat_set(m, mr, mc, p1 - 1, p2 - 1, F, g[1]); mat_set(m, mr, mc, p2 - 1, p1 - 1, F, g[2]); mat_set(m, mr, mc, p2 - 1, p2 - 1, F, g[3]); }
 		else { mat_set(m, mr, mc, lo, lo, F, g[0]); mat_set(m, mr, mc, lo, 1 - lo, F, g[1]); mat_set(m, mr, mc, 1 - lo, lo, F, g[2]); mat_set(m, mr, mc, 1 - lo, 1 - lo, F, g[3]); }
-		if (ab == 0) LIB(rc = vnacal_new_add_line_m(v, mp, mr, mc, snull ? NULL : s, p1, p2));
-		else LIB(rc = vnacal_new_add_line(v, a.v, ar, ac, mp, mr, mc, snull ? NULL : s, p1, p2));
+		if (ab == 0) LIB(rc = vnacal_new_add_line_m(v, mp, mr, mc, s, p1, p2));
+		else LIB(rc = vnacal_new_add_line(v, a.v, ar, ac, mp, mr, mc, s, p1, p2));
 	    } else {
 		/* nmm ... srows scols havemap  then srows*scols (capped) parameter ints, then ports ints when havemap, then values for the S cells */
+		/* the arrays handed to the library always have the declared srows*scols / max(srows, scols) entries (entries beyond
+		 * the capped script tokens are 0), so that a large dimension in a script is an invalid argument, not a short array */
 		int sr = geti(), sc = geti(), havemap = geti();
-		int scells = (sr > 0 && sc > 0) ? sr * sc : 0; if (scells > 36) scells = 36;
-		int sp = sr > sc ? sr : sc; if (sp < 0) sp = 0; if (sp > 8) sp = 8;
-		int s[37] = {0}, pm[9] = {0};
+		long rcells = (sr > 0 && sc > 0) ? (long)sr * (long)sc : 0;
+		long rsp = sr > sc ? sr : sc; if (rsp < 0) rsp = 0;
+		if (rcells > (1L << 20) || rsp > (1L << 20)) { mat_free(m); mat_free(a); r_skip(); return; }
+		int scells = rcells > 36 ? 36 : (int)rcells;
+		int sp = rsp > 8 ? 8 : (int)rsp;
+		int *s = calloc((size_t)rcells + 1, sizeof(int)), *pm = calloc((size_t)rsp + 1, sizeof(int));
 		for (int i = 0; i < scells; ++i) s[i] = geti();
 		if (havemap) for (int i = 0; i < sp; ++i) pm[i] = geti();
 		for (int i = 0; i < scells; ++i) {
@@ -617,6 +646,7 @@ static void do_op(const char *op)
 		}
 		if (ab == 0) LIB(rc = vnacal_new_add_mapped_matrix_m(v, mp, mr, mc, s, sr, sc, havemap ? pm : NULL));
 		else LIB(rc = vnacal_new_add_mapped_matrix(v, a.v, ar, ac, mp, mr, mc, s, sr, sc, havemap ? pm : NULL));
+		free(s); free(pm);
 	    }
 	    mat_free(m); mat_free(a); r_int(rc, rc == -1);
 	}
